@@ -31,11 +31,13 @@ import common                                  # noqa: E402
 import pyfacts                                 # noqa: E402
 
 ID = 'C08'
-LEAN_MODULES = ['Yaql.Props.C08', 'Yaql.Props.C08Gen', 'Yaql.Props.C08EvalMono', 'Yaql.Props.C08EvalOff', 'Yaql.Props.C08Eval']
+LEAN_MODULES = ['Yaql.Props.C08', 'Yaql.Props.C08Gen', 'Yaql.Props.C08EvalMono', 'Yaql.Props.C08EvalOff', 'Yaql.Props.C08Eval',
+                'Yaql.Props.C08Entry']
 REQUIRED_THEOREMS = ['Yaql.Props.C08.' + n for n in (
     'limit_pulls', 'limit_prefix', 'limit_endless_raises', 'unlimited_never_raises', 'limit_sized',
     'finalize_bounded', 'finalize_refuses', 'repeat_estimate_safe', 'repeat_nonpositive', 'repeat_estimate_safe_str',
-    'memorize_bounded', 'quota_flow', 'quota_result', 'frozen_dict_measured', 'dict_set_checked')] + ['Yaql.Props.C08Gen.' + n for n in (
+    'memorize_bounded', 'quota_flow', 'quota_result', 'frozen_dict_measured', 'dict_set_checked',
+    'entry_bounded', 'entry_refuses', 'entry_call_bounded', 'entries_agree', 'top_level_limit_not_enough')] + ['Yaql.Props.C08Gen.' + n for n in (
         'consumers_limited', 'producers_limited', 'frozen_dict_unmeasured_old', 'table_nonvacuous', 'sizes_ok', 'repeat_estimate_safe_now',
         'repeat_estimate_safe_str_now', 'repeat_estimate_unsafe_old')] + ['Yaql.Props.C08Eval.' + n for n in (
             'evalL_off', 'runL_off', 'evalL_rel', 'runL_rel', 'evalL_refines', 'runL_refines', 'limits_monotone',
@@ -99,6 +101,24 @@ class Unsynth(Exception):
     pass
 
 
+def deep_max_len(v, cap, depth=0):
+    """the largest number of elements of a collection at any depth of a value handed to the host.  A result may hold
+    lazy iterators (it should not: the finaliser turns them into lists): they are pulled for at most `cap` items, which
+    is enough to see that they exceed a limit below `cap`, and keeps the walk finite over endless ones"""
+    import collections.abc as abc
+    import itertools
+    if v is None or isinstance(v, (str, bytes, bool, int, float)) or depth > 40:
+        return 0
+    if isinstance(v, abc.Mapping):
+        return max([len(v)] + [max(deep_max_len(k, cap, depth + 1), deep_max_len(x, cap, depth + 1)) for k, x in v.items()])
+    if isinstance(v, (list, tuple, set, frozenset, abc.KeysView, abc.ItemsView, abc.ValuesView)):
+        return max([len(v)] + [deep_max_len(x, cap, depth + 1) for x in v])
+    if isinstance(v, abc.Iterable):
+        items = list(itertools.islice(iter(v), cap))
+        return max([len(items)] + [deep_max_len(x, cap, depth + 1) for x in items])
+    return 0
+
+
 class WorkerState:
     def __init__(self):
         import datetime
@@ -106,8 +126,9 @@ class WorkerState:
         import yaql
         from dateutil import tz
         from gens import limitfacts
-        from yaql.language import exceptions, expressions, utils, yaqltypes
+        from yaql.language import exceptions, expressions, specs, utils, yaqltypes
         from yaql.standard_library import queries
+        self.specs = specs
         self.yaql, self.exc, self.expressions, self.utils, self.yaqltypes = yaql, exceptions, expressions, utils, yaqltypes
         reg, self.root = limitfacts.registry()
         self.reg = dict(reg)
@@ -221,18 +242,18 @@ class WorkerState:
             return 'MemoryError'
         return 'exc:' + type(e).__name__
 
-    def finish(self, fn, log):
-        from props import c10
+    def finish(self, fn, log, N=None):
         out = dict(maxlen=None)
         try:
             r = fn()
             out['outcome'] = 'returned'
-            out['maxlen'] = c10.max_len(r)
+            out['pulls'] = max([s.pulls for s in log] + [0])        # before the walk below (which pulls what is still lazy)
+            out['maxlen'] = deep_max_len(r, 1000 if N is None else N + 2)
         except RecursionError:
             out['outcome'] = 'exc:RecursionError'
         except Exception as e:      # noqa
             out['outcome'] = self.classify(e)
-        out['pulls'] = max([s.pulls for s in log] + [0])
+        out.setdefault('pulls', max([s.pulls for s in log] + [0]))
         out['sources'] = len(log)
         return out
 
@@ -250,15 +271,36 @@ class WorkerState:
         except Unsynth:
             return dict(outcome='unsynthesizable', pulls=0, maxlen=None, sources=0)
         ctx = self.root.create_child_context()
-        NO = self.utils.NO_VALUE
+        entry = c.get('entry', 'delegate')
+        as_function = fd.is_function or not args
+
+        def through(yi):
+            # the attribute-call API of YaqlInterface: yi.<name>(*args) / yi.on(receiver).<name>(*args)
+            if as_function:
+                return getattr(yi, fd.name)(*args, **kwargs)
+            return getattr(yi.on(args[0]), fd.name)(*args[1:], **kwargs)
 
         def go():
-            if fd.is_function or not args:
+            if entry == 'stub':
+                from yaql import yaql_interface
+                return through(yaql_interface.YaqlInterface(ctx, engine))
+            if entry == 'host':
+                # the same from inside a host function that asked for the hidden `yaql_interface` parameter; what the
+                # stub hands to the host function is the result that counts (the statement's own finaliser sees None)
+                got = []
+
+                def via_iface(yaql_interface):
+                    got.append(through(yaql_interface))
+                f = self.specs.inject('yaql_interface', self.yaqltypes.YaqlInterface())(via_iface)
+                ctx.register_function(f, name='viaIface')
+                engine('viaIface()').evaluate(context=ctx)
+                return got[0]
+            if as_function:
                 r = fd(engine, ctx)(*args, **kwargs)
             else:
                 r = fd(engine, ctx, args[0])(*args[1:], **kwargs)
             return ctx('#finalize', engine)(r)
-        return self.finish(go, log)
+        return self.finish(go, log, c['N'])
 
     def expr(self, c):
         import sys as _sys
@@ -307,12 +349,18 @@ class WorkerState:
             data = 1 << c['bigbits']
         out = dict(maxlen=None, size=None)
         try:
-            st = engine(c['expr'], options=per_call) if per_call else engine(c['expr'])
-            r = st.evaluate(data=data, context=ctx)
+            if c.get('entry') == 'iface':
+                # the expression form of YaqlInterface: yaql_interface(expr, data) with the data as `$1`
+                from yaql import yaql_interface
+                yi = yaql_interface.YaqlInterface(ctx, engine)
+                r = yi(c['expr']) if data is self.utils.NO_VALUE else yi(c['expr'].replace('$', '$1'), data)
+            else:
+                st = engine(c['expr'], options=per_call) if per_call else engine(c['expr'])
+                r = st.evaluate(data=data, context=ctx)
             out['outcome'] = 'returned'
             out['size'] = _sys.getsizeof(r, 0)
             inner.append(hidden(r))
-            out['maxlen'] = c10.max_len(r) if not c.get('raw') else None
+            out['maxlen'] = deep_max_len(r, 1000 if c.get('N') is None else c['N'] + 2) if not c.get('raw') else None
             if c.get('want'):
                 try:
                     out['value'] = c10.penc(r)
@@ -427,7 +475,7 @@ def run_pool(cases, nworkers=16, give_up_after=40):
                     results[i] = dict(outcome='skipped', pulls=None, maxlen=None)
                     continue
                 results[i] = w.ask(cases[i])
-                if results[i]['outcome'] in ('timeout', 'worker-died') and not (
+                if results[i]['outcome'] in ('timeout', 'worker-died', 'MemoryError') and not (
                         cases[i].get('part') in ('S', 'E') and known_nested(cases[i])):
                     with lock:
                         bad[0] += 1
@@ -524,11 +572,19 @@ def describe_sweep(c):
     v = {'int': 'endless ints', 'etuple': 'endless empty lists', 'eiter': 'endless empty iterators',
          'esrc': 'endless endless sequences'}.get(c.get('elem'), '')
     fl = (', %s => true' % ', '.join(c['flags'])) if c.get('flags') else ''
+    fl += ENTRY_TEXT.get(c.get('entry'), '')
     if c['target'] is None:
         return '%s with %s returning endless sequences%s' % (
             c['fn'], 'every lambda' if c['lam'] == 'src' else 'lambda `%s`' % c['lam'][4:], fl)
     return '%s with %s%s as parameter `%s` (lambdas: %s%s)' % (
         c['fn'], v, ' inside a one-element list' if c['wrap'] == 'in_list' else '', c['target'], c['lam'], fl)
+
+
+ENTRY_TEXT = {'stub': ' [called through the attribute-call API of YaqlInterface: YaqlInterface(context, engine).<name>(..) / '
+                      '.on(receiver).<name>(..); the result is what the stub returns]',
+              'host': ' [called through the `yaql_interface` parameter of a host function: yaql_interface.<name>(..) / '
+                      '.on(receiver).<name>(..); the result is what the stub hands to the host function]',
+              'iface': ' [evaluated with YaqlInterface(context, engine)(expression)]'}
 
 
 VIA_TEXT = {'copy': ' [limits set with engine.copy(options) of a base engine that parsed the text before]',
@@ -654,6 +710,118 @@ def run_shapes(env, res, rng, hist):
                         continue        # two faults: which one is hit first depends on the iteration order of a set
                     if real_cls != model_cls:
                         res.fail('mismatch', 'model-finalize', '%s: real %s, model %s' % (tag, real_cls, model_cls), case)
+
+
+# ------------------------------------------------------------------ R2: the same shapes through the other entry points
+
+R_ENTRIES = ('iface', 'stub', 'stubOn', 'stub-select', 'host-select')
+R_ENTRY_TEXT = {
+    'iface': 'YaqlInterface(context, engine)("$1", v)',
+    'stub': 'YaqlInterface(context, engine).ident(v) (ident: a host function that returns its argument)',
+    'stubOn': 'YaqlInterface(context, engine).on(v).same() (same: a host method that returns its receiver)',
+    'stub-select': 'YaqlInterface(context, engine).on([0]).select(<host lambda returning v>)',
+    'host-select': 'yaql_interface.on([0]).select(<host lambda returning v>) inside a host function with the hidden '
+                   '`yaql_interface` parameter (the result is what the stub hands to the host function)'}
+
+
+def run_shape_entries(env, res, rng, hist):
+    """`no collection with more than N elements at any depth of a result`, for results handed over by YaqlInterface:
+    the expression form, the attribute-call stubs with and without on(receiver), stand-alone and from inside a host
+    function; the value travels as an argument (converted on the way in), as the receiver (as it is) or is made by a
+    host lambda below the top level of the iterator a library function returns"""
+    from props import c10
+    from yaql import yaql_interface
+    from yaql.language import specs, yaqltypes
+    drv = env['driver']
+    real = c10.Real()
+    ctx = real.root.create_child_context()
+    ctx.register_function(lambda x: x, name='ident')
+    ctx.register_function(specs.method(lambda receiver: receiver), name='same')
+    got = []
+
+    def via_iface(yaql_interface, fn):
+        got.append(fn(yaql_interface))
+    ctx.register_function(specs.inject('yaql_interface', yaqltypes.YaqlInterface())(via_iface), name='viaIface')
+    cases = shape_cases(rng, env['tier'])
+    todo = []
+    for sc in cases:
+        N = sc['N']
+        optss = [(True, False)] if sc['L'] is not None and rng.random() < 0.7 else [(True, False), (False, True)]
+        for entry in R_ENTRIES:
+            if entry in ('iface', 'host-select') and env['tier'] == 'quick' and rng.random() < 0.6:
+                continue
+            for (t2l, s2l) in optss:
+                c10.SRC.clear()
+                try:
+                    obj = c10.build(sc['v'])
+                except TypeError:
+                    continue
+                src_j = c10.penc(obj)
+                eng, _ = real.engine(t2l, s2l, N, True)
+                yi = yaql_interface.YaqlInterface(ctx, eng)
+                if entry in ('iface', 'stub'):
+                    raw_j, mq = c10.py_in(src_j), dict(entry=entry, wrap='id', v=src_j)
+                elif entry == 'stubOn':
+                    raw_j, mq = src_j, dict(entry=entry, wrap='recv', v=src_j)
+                else:
+                    raw_j, mq = {'q': 'iter', 'l': [src_j]}, dict(entry='stubOn', wrap='iter', v=src_j)
+                try:
+                    if entry == 'iface':
+                        r = yi('$1', obj)
+                    elif entry == 'stub':
+                        r = yi.ident(obj)
+                    elif entry == 'stubOn':
+                        r = yi.on(obj).same()
+                    elif entry == 'stub-select':
+                        r = yi.on((0,)).select(lambda _: obj)
+                    else:
+                        del got[:]
+                        c2 = ctx.create_child_context()
+                        c2['$1'] = lambda y: y.on((0,)).select(lambda _: obj)
+                        eng('viaIface($1)').evaluate(context=c2)
+                        r = got[0]
+                    out = ('ok', r)
+                except Exception as e:      # noqa
+                    out = ('exc',) + c10.classify_exc(e, sys.exc_info()[2])
+                case = dict(part='R', entry=entry, v=sc['v'], N=N, opts=[t2l, s2l])
+                res.case('R2' + common.digest([entry, sc['v'], N, t2l, s2l]), sc['L'] is None or sc['L'] >= 1,
+                         sample=dict(case, v=c10.show(sc['v'])) if res.evaluations % 900 == 0 else None)
+                bounded = c10.py_bounded(raw_j, N)
+                clean = c10.py_clean(raw_j, t2l, s2l)
+                tag = '%s with v = %s, yaql.limitIterators=%d (options %s)' % (R_ENTRY_TEXT[entry], c10.show(src_j), N, (t2l, s2l))
+                hk = 'R2:%s:' % entry
+                if out[0] == 'ok':
+                    hist[hk + 'returned'] = hist.get(hk + 'returned', 0) + 1
+                    m = deep_max_len(out[1], N + 2)
+                    if m > N:
+                        res.fail('oracle', 'oversized-result:' + entry, '%s handed the host a collection of %s%d elements' % (
+                            tag, 'at least ' if m == N + 2 else '', m), case)
+                        continue
+                    if not bounded:
+                        res.fail('oracle', 'oversized-result:' + entry, '%s returned although a collection exceeds the limit' % tag, case)
+                        continue
+                else:
+                    hist[hk + out[1]] = hist.get(hk + out[1], 0) + 1
+                    if out[1] == 'tooLarge' and bounded:
+                        res.fail('oracle', 'refused-within-limit', '%s raised CollectionTooLargeException although no collection '
+                                 'has more than %d elements' % (tag, N), case)
+                        continue
+                    if out[1] == 'other':
+                        res.fail('mismatch', 'entry-failed', '%s failed: %s' % (tag, out[2]), case)
+                        continue
+                real_cls = 'ok' if out[0] == 'ok' else {'tooLarge': 'tooLarge', 'unhashable-finalize': 'unhashable'}.get(out[1], out[1])
+                todo.append((dict(mq, op='entry', t2l=t2l, s2l=s2l, N=N), real_cls, bounded, clean, tag, case))
+    if drv:
+        for i in range(0, len(todo), 400):
+            part = todo[i:i + 400]
+            ms = drv.ask({'p': 'C08', 'cases': [t[0] for t in part]})['res']
+            for (q, real_cls, bounded, clean, tag, case), m in zip(part, ms):
+                model_cls = 'ok' if 'ok' in m else m.get('err')
+                res.traces += 1
+                if not bounded and not clean and real_cls in ('tooLarge', 'unhashable') and model_cls in ('tooLarge', 'unhashable'):
+                    continue        # two faults: which one is hit first depends on the iteration order of a set
+                if real_cls != model_cls:
+                    res.fail('mismatch', 'model-entry', '%s: real %s, model (Entry.deliver) %s' % (tag, real_cls, model_cls), case)
 
 
 # ------------------------------------------------------------------ L: limit_iterable itself
@@ -946,7 +1114,11 @@ def run(env, res):
                 'N in {0,1,2,5,50} x element kind {ints, empty lists, empty iterators} x lambda profile; non-trivial = the source was '
                 'pulled at least once. E: expressions over src(). R: result shapes with a collection of N-1/N/N+1 elements at depth '
                 '0..3 + random nested values. L: limit_iterable against the model. Q: repetition with quotas at the modelled '
-                'boundaries and growth chains. distinct = distinct case descriptions')
+                'boundaries and growth chains. distinct = distinct case descriptions. ENTRY POINTS: the sweep cases also '
+                'through the attribute-call stubs of YaqlInterface (stand-alone and from inside a host function with the hidden '
+                'yaql_interface parameter), the expressions also through YaqlInterface(ctx, engine)(expr), the shapes (R2) '
+                'through yi("$1", v), yi.ident(v), yi.on(v).same(), yi.on([0]).select(<lambda returning v>) stand-alone and '
+                'inside a host function')
     if env['replay']:
         rp = json.load(open(env['replay']))
         c = rp['case']
@@ -965,7 +1137,10 @@ def run(env, res):
         else:
             res.case(common.digest(c), True, sample=c)
             # R / L cases are cheap: rerun the whole part
-            (run_shapes if c.get('part') == 'R' else run_limit_direct)(env, res, rng, hist)
+            if c.get('part') == 'R' and c.get('entry'):
+                run_shape_entries(env, res, common.make_rng(env['seed'], 'C08-entries'), hist)
+            else:
+                (run_shapes if c.get('part') == 'R' else run_limit_direct)(env, res, rng, hist)
         res.extra['histogram'] = hist
         return res
 
@@ -1016,9 +1191,23 @@ def run(env, res):
             if c['lam'] == first or rng.random() < 0.33:
                 keep.append(c)
         cases = keep
+    # the result clause holds for every public entry point that hands a result to the host: the same calls through the
+    # attribute-call stubs of YaqlInterface, stand-alone and from inside a host function with the hidden `yaql_interface`
+    # parameter (all cases in which a lambda returns an endless sequence - a collection BELOW the top level of the
+    # result -, a sample of the others)
+    extra = []
+    for c in cases:
+        deep = c['target'] is None or c['elem'] == 'esrc'
+        nested = c['wrap'] == 'in_list'
+        for entry, pr in (('stub', 0.06), ('host', 0.03)):
+            if rng.random() < ((1.0 if entry == 'stub' else 0.3) if deep else 2 * pr if nested else pr) * (1 if tier == 'quick' else 3):
+                extra.append(dict(c, entry=entry))
+    cases += extra
     for e, elem, known in EXPRS:
         for N in NS:
             cases.append(dict(op='expr', part='E', expr=e, elem=elem, N=N, known=known, conv_in=True))
+            if tier != 'quick' or rng.random() < 0.5:
+                cases.append(dict(op='expr', part='E', expr=e, elem=elem, N=N, known=known, conv_in=True, entry='iface'))
             # the same bound must hold when the limit comes from engine.copy(options) / engine(text, options=...)
             via = rng.choice(['copy', 'call'])
             if tier != 'quick' or rng.random() < 0.5:
@@ -1062,6 +1251,23 @@ def run(env, res):
         if still == 0:
             for i in timed_out[RETRY_MAX:]:
                 outs[i] = dict(outcome='skipped', pulls=None, maxlen=None)
+    # The cases with the signature of the (repaired) finding `nested-iterators-unlimited` run first, while 16 + 4 worker
+    # processes are starting: on a loaded machine one of them may miss the watchdog although it returns at once.  They
+    # are re-tried alone as well (three times the allowance; a tree that has the defect hangs in the first re-try, after
+    # which the others keep their verdict).
+    nested_to = [i for i, r in enumerate(outs) if r and r['outcome'] in ('timeout', 'worker-died')
+                 and allc[i].get('part') in ('S', 'E') and known_nested(allc[i])]
+    if nested_to:
+        w = Worker()
+        try:
+            for i in nested_to[:RETRY_MAX]:
+                r2 = w.ask(allc[i], timeout=3 * WATCHDOG)
+                if r2['outcome'] in ('timeout', 'worker-died'):
+                    break
+                outs[i] = r2
+        finally:
+            w.kill()
+    hist['nested_timeouts'] = len(nested_to)
     hist['pool_timeouts'] = len(timed_out)
     hist['pool_timeouts_retried_alone'] = retried
     hist['pool_timeouts_confirmed'] = still
@@ -1082,17 +1288,20 @@ def run(env, res):
             continue
         nontrivial = bool(out.get('pulls')) or out['outcome'] in ('timeout',)
         pulled += nontrivial
+        if c.get('entry'):
+            hist['entry:' + c['entry']] = hist.get('entry:' + c['entry'], 0) + 1
         if c['op'] == 'sweep':
             positions.add((c['fn'], c['target']))
             what = describe_sweep(c)
         else:
-            what = '`%s` (src(): %s)%s' % (c['expr'], c['elem'], VIA_TEXT.get(c.get('via'), ''))
+            what = '`%s` (src(): %s)%s%s' % (c['expr'], c['elem'], VIA_TEXT.get(c.get('via'), ''), ENTRY_TEXT.get(c.get('entry'), ''))
         res.case(c['op'] + common.digest(c), nontrivial,
                  sample=dict(what=what, N=c['N'], outcome=out['outcome'], pulls=out.get('pulls')) if res.evaluations % 1500 == 0 else None)
         judge_bound(res, c, out, hist, what)
     # ---- L + R in process (finite data)
     run_limit_direct(env, res, rng, lhist)
     run_shapes(env, res, rng, rhist)
+    run_shape_entries(env, res, common.make_rng(env['seed'], 'C08-entries'), rhist)
     c08eval.finish(vhandle, env, res, vhist)
 
     known = {k['key'] for k in common.known_findings() if k['property'] == ID and k.get('status') == 'known'}
@@ -1112,7 +1321,10 @@ def run(env, res):
 LEVEL_TEXT = ('Lean 4 theorems over a model of utils.limit_iterable (counting generator over an arbitrary finite or endless '
               'source: limit_pulls - at most N items obtained, at most N+1 pulled, for every source, N and consumer; '
               'limit_endless_raises; limit_prefix; limit_sized), of convert_output_data with the #iter limiter '
-              '(finalize_bounded / finalize_refuses, via C10.convOut_spec), of limit_memory_usage and the pre-allocation '
+              '(finalize_bounded / finalize_refuses, via C10.convOut_spec; C08Entry over Model/Entry.lean: every public '
+              'entry point - evaluate, YaqlInterface.__call__, the attribute-call stubs with and without on(receiver) - hands '
+              'over what the whole finaliser let through: entry_bounded, entry_refuses, entry_call_bounded, entries_agree; '
+              'limiting the top level only is not enough: top_level_limit_not_enough), of limit_memory_usage and the pre-allocation '
               'estimates of list_by_int / string_by_int over a size model whose constants are regenerated from the running '
               'CPython (repeat_estimate_safe, repeat_estimate_safe_str; the pre-fix estimate shown unsafe by a witness), '
               'memorize_bounded, and quota_flow for first-order call trees. Generated-table theorems re-proved on every run '
